@@ -377,7 +377,7 @@ func runHopInner(c *vt.C, s *HopScript) (bool, *vt.Finding) {
 	}
 
 	// ---- leg 1: the exporter -------------------------------------------------
-	r.sink.reset(o.err())
+	r.sink.resetCarry(o.err(), o.Carry)
 	sendErr := send(context.Background(), fresh())
 	calls, trees := r.sink.snapshot()
 
@@ -421,7 +421,7 @@ func runHopInner(c *vt.C, s *HopScript) (bool, *vt.Finding) {
 	c.Class(labels...)
 
 	// ---- leg 2: raw client of the same transport (wire observation) ----------
-	r.sink.reset(o.err())
+	r.sink.resetCarry(o.err(), o.Carry)
 	var w wireStatus
 	if s.Transport == trGRPC {
 		w = E.rawGRPC(s.Auth, credValue(cred), s.Signal, fresh(), s.Compression)
